@@ -184,6 +184,11 @@ FAILING_CORES = [
     "if (OsN & 1) { RdV = RsV; }",
     "G0_NEW = RsV;",
     "RdV = VsV;",
+    "RdV = RsV; __NOP",
+    "__NOP",
+    "RdV = extract32(RsV, 0, 8, 1);",
+    "n = RsV;",
+    "RdV = n;",
 ]
 
 PARSE_ERRORS = [
@@ -212,7 +217,16 @@ def failing_behaviours() -> list[str]:
     return out
 
 
-HANDWRITTEN = [
+DEEP_TREES = [
+    "{ " + "RdV = RdV + 1; " * 120 + "}",
+    "{ " + "if (PuV) { " * 50 + "RdV = RsV;" + " }" * 50 + " }",
+    "{ " + "if (PuN & 1) { " * 40 + "JUMP(riV);" + " }" * 40 + " }",
+]
+
+HANDWRITTEN = DEEP_TREES + [
+    # a predicate written and read as .new in one part
+    "{ P0 = 0xff; RdV = P0_NEW; }", "{ P1 = RsV; if ((P1_NEW & 1)) { JUMP(riV); } }", "{ P0 = 0xff; if (P0_NEW & 1) { RdV = RsV; } }",
+    "{ RdV = P0_NEW; P0 = 0xff; }", "{ P2 = RsV; RdV = P3_NEW; }",
     # constant conditions with a bare operand in the arm that is not taken, statements without an effect,
     # break / continue / goto
     "{ RdV = (1 ? RsV : PvN); }", "{ RdV = 0 ? PuN : RsV; }", "{ RdV = (0 ? NsN : RsV); }", "{ RdV = (1 ? PuN : RsV); }",
